@@ -13,6 +13,7 @@ import (
 	yae "github.com/goghcrow/yae"
 	"github.com/goghcrow/yae/conv"
 	"github.com/goghcrow/yae/simrt"
+	"github.com/goghcrow/yae/val"
 )
 
 // ---------------------------------------------------------------------------
@@ -788,7 +789,12 @@ func conforms(a, b *Env7) (accept bool, why string) {
 
 type Step7 struct {
 	Muts []string `json:"muts"`
-	Env  *Env7    `json:"env"`
+	Env  *Env7    `json:"env"` // what the model judges (for again / rawput: the object's contents at invocation time)
+	// Again: invoke with the very same host object as the previous step (a retry).
+	Again bool `json:"again,omitempty"`
+	// RawPut: the previous step's raw *val.Env object is modified in place (Put of this
+	// binding) and passed again.
+	RawPut *Field `json:"raw_put,omitempty"`
 }
 
 type Hist7 struct {
@@ -821,6 +827,26 @@ func genHist7(r *rng) *Hist7 {
 		}
 		st.Env = cur
 		h.Steps = append(h.Steps, st)
+		// retry with the same object / modify the same raw object in place
+		if r.chance(0.25) {
+			again := &Step7{Muts: []string{"again"}, Again: true}
+			cloneVT(cur, &again.Env)
+			h.Steps = append(h.Steps, again)
+		} else if cur.Raw && len(cur.Binds) > 0 && r.chance(0.5) {
+			var ne *Env7
+			cloneVT(cur, &ne)
+			b := ne.Binds[r.intn(len(ne.Binds))]
+			old := b.mtype()
+			for k := 0; k < 5; k++ {
+				b.V, b.Ptr, b.Nil, b.Maybe = g.value(r.intn(2), true), false, false, false
+				if b.mtype() != old {
+					break
+				}
+			}
+			var put *Field
+			cloneVT(b, &put)
+			h.Steps = append(h.Steps, &Step7{Muts: []string{"rawput"}, Env: ne, RawPut: put})
+		}
 	}
 	h.Reuse = r.chance(0.5)
 	h.RawA = r.chance(0.25)
@@ -915,11 +941,29 @@ func runHist7(h *Hist7, x *evalCtx) hist7Result {
 		if compileErr != nil {
 			return
 		}
+		var prevHost interface{}
 		for i, st := range h.Steps {
-			hostB, err := hostOf(st.Env)
+			var hostB interface{}
+			var err error
+			switch {
+			case st.Again && prevHost != nil:
+				hostB = prevHost
+			case st.RawPut != nil && prevHost != nil:
+				if re, ok := prevHost.(*val.Env); ok {
+					if pv, perr := conv.ValOf(st.RawPut.V.goValue().Interface()); perr == nil {
+						re.Put(st.RawPut.Name, pv)
+					}
+					hostB = re
+				} else {
+					hostB, err = hostOf(st.Env)
+				}
+			default:
+				hostB, err = hostOf(st.Env)
+			}
 			if err != nil {
 				harnessFatal("c07: cannot build B%d: %v", i, err)
 			}
+			prevHost = hostB
 			outs[i].accept, outs[i].why = conforms(h.A, st.Env)
 			outs[i].o = x.observe(false, func(o *obs) {
 				v, _, err := callWith(h.Spec, c, hostB)
@@ -996,7 +1040,7 @@ func runHist7(h *Hist7, x *evalCtx) hist7Result {
 }
 
 // dominant names the mutation a violation is attributed to in its signature.
-var mutPriority = []string{"bad", "hetero", "drop", "retype-top", "retype-deep", "field-add", "field-remove", "field-rename", "nil-flip",
+var mutPriority = []string{"rawput", "again", "bad", "hetero", "drop", "retype-top", "retype-deep", "field-add", "field-remove", "field-rename", "nil-flip",
 	"reorder", "reorder-top", "raw", "array", "carrier", "ptrflip", "numkind", "maybe-flip", "extra", "contents", "same"}
 
 func dominant(muts []string) string {
